@@ -3,10 +3,10 @@
 
    Carrier [xq]: exact rationals extended by -inf, +inf and NaN.
      int types   : integers, every operation wrapped to the width of its C type (as Common.CxxSem.MZ);
-     float types : exact rational arithmetic with IEEE rules for the infinities and overflow to +-inf beyond
-                   FLT_MAX.  This equals binary32 arithmetic whenever every intermediate value is
-                   representable, which the case generators guarantee (small dyadic rationals; the harness
-                   raises a flag from FE_INEXACT otherwise and such a case is not compared exactly). *)
+     float types : rational arithmetic with IEEE rules for the infinities, every binary32 result rounded to nearest-even
+                   (fround32: 24-bit significand, denormal grid 2^-149) and overflow to +-inf beyond FLT_MAX; int -> float
+                   conversions round the same way, an out-of-range float -> int conversion returns the x86 indefinite integer.
+                   (division and libm leaves are not used on inexact operands by the case generators.) *)
 From Coq Require Import ZArith QArith Qabs List Bool.
 From Common Require Import CxxSem.
 From C05.gen Require Import GenBox.
@@ -24,12 +24,30 @@ Definition FLT_MAX : Q := (2 ^ 128 - 2 ^ 104) # 1.
 Definition FLT_MIN : Q := 1 # (2 ^ 126).
 Definition qlt (a b : Q) : bool := negb (Qle_bool b a).
 
+(* round to nearest, ties to even, to the binary32 format: 24-bit significand for |q| >= 2^-126, multiples of 2^-149 below.
+   The identity on every representable value. *)
+Definition pow2q (k : Z) : Q := if 0 <=? k then (2 ^ k) # 1 else 1 # (Z.to_pos (2 ^ (- k))).
+Definition fround32 (q : Q) : Q :=
+  let n := Z.abs (Qnum q) in
+  let d := Zpos (Qden q) in
+  if n =? 0 then 0%Q
+  else
+    let e0 := Z.log2 n - Z.log2 d in
+    let e := if (if 0 <=? e0 then n <? d * 2 ^ e0 else n * 2 ^ (- e0) <? d) then e0 - 1 else e0 in   (* 2^e <= |q| < 2^(e+1) *)
+    let k := if e <? -126 then -149 else e - 23 in                                                  (* unit in the last place = 2^k *)
+    let num := if 0 <=? k then n else n * 2 ^ (- k) in
+    let den := if 0 <=? k then d * 2 ^ k else d in
+    let f := num / den in
+    let r := num mod den in
+    let m := if 2 * r <? den then f else if den <? 2 * r then f + 1 else if Z.even f then f else f + 1 in
+    Qred (Qmult ((Z.sgn (Qnum q) * m) # 1) (pow2q k)).
+
 Definition fnorm (t : ctype) (x : xq) : xq :=
   match x with
-  | XF q => let q := Qred q in
-            match t with
-            | F32 => if qlt FLT_MAX q then XP else if qlt q (Qopp FLT_MAX) then XN else XF q
-            | _ => XF q
+  | XF q => match t with
+            | F32 => let q := fround32 q in
+                     if qlt FLT_MAX q then XP else if qlt q (Qopp FLT_MAX) then XN else XF q
+            | _ => XF (Qred q)
             end
   | _ => x
   end.
@@ -108,9 +126,15 @@ Definition x_cmp (c : cmpop) (t : ctype) (a b : xq) : bool :=
   | Eq => x_eq a b | Ne => negb (x_eq a b)
   end.
 
+(* float -> signed integer conversion of a value outside the target range is undefined in C++; x86 (cvttss2si) returns the
+   "integer indefinite" value = the minimum of the type, and that is what this reading returns (it is what the compiled templates do;
+   the C++ standard promises nothing).  Every other conversion: truncation toward zero, then the width of the target. *)
 Definition x_cast (from to : ctype) (a : xq) : xq :=
   if isfloat to then fnorm to a
-  else match x_int a with Some z => ofz (wrap to z) | None => XNaN end.
+  else match x_int a with
+       | Some z => if isfloat from && signed to && ((z <? tmin to) || (tmax to <? z)) then ofz (tmin to) else ofz (wrap to z)
+       | None => XNaN
+       end.
 
 Definition x_lib (f : libfn) (t : ctype) (l : list xq) : xq :=
   match f, l with
